@@ -42,7 +42,9 @@ def verify_one(target, timeout_ms=20000, cross=False, only_labels=None):
         try:
             fr = reg.resolve_target(target)
             out["source"] = E.func_source_info(fr)
+            te = time.time()
             obs = eng.run()
+            out["engine_s"] = round(time.time() - te, 2)
         except EngineError as e:
             out["status"] = "undecided"
             out["error"] = "outside subset / anchor lost: %s" % e
@@ -59,10 +61,16 @@ def verify_one(target, timeout_ms=20000, cross=False, only_labels=None):
         st["opaque_calls"] = sorted(st.get("opaque_calls", []))
         st["havocs"] = [list(map(str, h)) for h in st.get("havocs", [])][:20]
         out["stats"] = st
+        from pyvc.seqabs import SharedProver
+
+        shared = None
+        shared_path = None
         for ob in obs:
             if only_labels and not any(l in ob.name for l in only_labels):
                 continue
-            S.discharge(ob, timeout_ms=timeout_ms, cross=cross)
+            if shared is None or shared_path != ob.path:
+                shared, shared_path = SharedProver(), ob.path  # one abstraction per execution path
+            S.discharge(ob, timeout_ms=timeout_ms, cross=cross, shared=shared)
             d = {
                 "name": ob.name,
                 "kind": ob.kind,
@@ -129,7 +137,7 @@ def main(argv=None):
     for r in res:
         nb = len(r["obligations"])
         pr = sum(1 for o in r["obligations"] if o["verdict"] == "proved")
-        print("%-55s %-9s %3d/%3d  paths=%s  %.2fs %s" % (r["target"], r["status"], pr, nb, r["stats"].get("paths"), r["wall_s"], (r["error"] or "")[:300]))
+        print("%-55s %-9s %3d/%3d  paths=%s  %.2fs (engine %.1fs) %s" % (r["target"], r["status"], pr, nb, r["stats"].get("paths"), r["wall_s"], r.get("engine_s", 0), (r["error"] or "")[:300]))
         for o in r["obligations"]:
             if o["verdict"] != "proved" or a.v:
                 print("     %-9s %-70s %.3fs %s" % (o["verdict"], o["name"], o["time_s"], o["note"][:100]))
